@@ -205,7 +205,9 @@ def run(scn):
         if not out and snapshot(C) != snapshot(B):
             V('C18.chunking', 'feeding in %d pieces gives a different terminal than feeding at once' % len(pcs),
               pieces=snapshot(C), whole=snapshot(B))
-        return out, {'digest': 'direct:%s' % hash((text, tuple(scn.get('cuts', [])))) , 'vt': 0, 'steps': len(pcs),
+        import hashlib
+        dg = hashlib.blake2b(repr((text, tuple(scn.get('cuts', [])), rows, cols, mode, tenc)).encode('utf-8'), digest_size=10).hexdigest()
+        return out, {'digest': 'direct:%s' % dg, 'vt': 0, 'steps': len(pcs),
                      'counters': {'direct': 1}, 'nchunks': len(pcs)}
     # through the simulated transport
     sc = dict(scn)
